@@ -34,6 +34,11 @@ pub enum Case {
     /// (0..=2: WithRate 1/2 on Vec / Vector / Bitstring, 3: WithOneOverLength on Vec, 4..=7: the four
     /// bit generators with p = 1/2, 8..=11: UniformXo on [Vec;2], (Vec,Vec), [Bitstring;2], (Bitstring,Bitstring))
     Long { which: u8, l: usize, dev: usize },
+    /// whole random genomes: `l` genes from a GeneGenerator through the collection generator
+    /// (which = 0: Plushy via to_collection_generator, 1: Plushy via into_collection_generator,
+    /// 2: Vec<PushGene>); p = (0, 0) means the default close probability 1/(n+1).
+    /// Law: independent genes, each Close with p and otherwise a uniformly chosen instruction.
+    PlushyGen { which: u8, p: R2, n: usize, l: usize },
 }
 
 fn product_mask_law(l: usize, p: Ratio) -> Law<Vec<bool>> {
@@ -156,6 +161,34 @@ pub fn bits_once(which: u8, p: R2, l: usize, env: &mut Env, alpha: Alphabet) -> 
 
 type Out = (u64, u64, Option<(String, String)>, usize);
 
+pub fn plushy_gen_once(which: u8, p: R2, n: usize, l: usize, env: &mut Env, alpha: Alphabet) -> Result<Vec<Option<usize>>, String> {
+    use push::genome::plushy::Plushy;
+    let mut rng = ChoiceRng::new(env, alpha);
+    let instrs = instr_set(n);
+    mcx::guarded(|| {
+        let dist = IntoDistribution::<PushInstruction>::into_distribution(instrs.clone()).expect("non-empty instruction set");
+        let gg = if p.1 == 0 { GeneGenerator::with_uniform_close_probability(dist) } else { GeneGenerator::new(p.0 as f32 / p.1 as f32, dist) };
+        let genes: Vec<PushGene> = match which {
+            0 => {
+                let g: Plushy = gg.to_collection_generator(l).sample(&mut rng);
+                g.get_genes()
+            }
+            1 => {
+                let g: Plushy = gg.into_collection_generator(l).sample(&mut rng);
+                g.get_genes()
+            }
+            _ => gg.to_collection_generator(l).sample(&mut rng),
+        };
+        genes
+            .iter()
+            .map(|g| match g {
+                PushGene::Close => None,
+                PushGene::Instruction(i) => Some(instrs.iter().position(|x| x == i).unwrap_or(usize::MAX)),
+            })
+            .collect()
+    })
+}
+
 fn compare<K: Ord + Clone + std::fmt::Debug>(name: &str, label: &str, got: &Law<K>, want: &Law<K>, st: &mcx::ExploreStats, panic: Option<String>) -> Out {
     if let Some(p) = panic {
         return (st.leaves, st.choice_points, Some((format!("{name}/panic"), format!("{label}: panicked: {p}"))), 0);
@@ -258,6 +291,48 @@ fn long_case(which: u8, l: usize, dev: usize) -> Out {
 pub fn run_case(c: &Case) -> Out {
     match c {
         Case::Long { which, l, dev } => long_case(*which, *l, *dev),
+        Case::PlushyGen { which, p, n, l } => {
+            let pc = if p.1 == 0 { Ratio::new(1, *n as u128 + 1) } else { rr(*p) };
+            let m = if p.1 == 0 { (*n * (*n + 1)) as u32 } else { grid_for(&[*p], &[*n as u32]) };
+            let names = ["plushy_to_collection_generator", "plushy_into_collection_generator", "gene_vec_collection_generator"];
+            let name = names[*which as usize];
+            let label = format!("{name}: {l} genes, close probability {pc}, {n} instructions");
+            let mut law: Law<Vec<Option<usize>>> = Law::new();
+            let mut panic = None;
+            let st = explore(
+                |env| plushy_gen_once(*which, *p, *n, *l, env, Alphabet::Grid(m)),
+                |_, w, o| match o {
+                    Ok(x) => law.add(x, w),
+                    Err(p) => panic = Some(p),
+                },
+                50_000_000,
+            );
+            // product law over the l positions
+            let mut per: Vec<(Option<usize>, Ratio)> = vec![(None, pc)];
+            for i in 0..*n {
+                per.push((Some(i), pc.one_minus().mul(Ratio::new(1, *n as u128))));
+            }
+            let mut acc: Vec<(Vec<Option<usize>>, Ratio)> = vec![(vec![], Ratio::ONE)];
+            for _ in 0..*l {
+                let mut next = vec![];
+                for (pre, w) in &acc {
+                    for (g, pw) in &per {
+                        if pw.is_zero() {
+                            continue;
+                        }
+                        let mut v = pre.clone();
+                        v.push(*g);
+                        next.push((v, w.mul(*pw)));
+                    }
+                }
+                acc = next;
+            }
+            let mut want: Law<Vec<Option<usize>>> = Law::new();
+            for (v, w) in acc {
+                want.add(v, w);
+            }
+            compare(name, &label, &law, &want, &st, panic)
+        }
         Case::Flip { kind, ool, rate, l } => {
             let p = if *ool { Ratio::new(1, (*l).max(1) as u128) } else { rr(*rate) };
             let m = if *ool { (*l).max(1) as u32 } else { grid_for(&[*rate], &[]) };
@@ -434,6 +509,19 @@ pub fn cases(quick: bool) -> Vec<Case> {
             v.push(Case::Long { which, l, dev: if quick || which == 3 { 1 } else { 2 } });
         }
     }
+    for which in 0..3u8 {
+        for n in 1..=if quick { 2usize } else { 3 } {
+            for l in 0..=if quick { 2usize } else { 3 } {
+                for p in [(0u32, 0u32), (1, 2), (1, 4), (0, 1), (1, 1)] {
+                    let m = if p.1 == 0 { (n * (n + 1)) as u64 } else { lcm(p.1 as u128, n as u128) as u64 };
+                    if m.pow(2 * l as u32) > 3_000_000 {
+                        continue;
+                    }
+                    v.push(Case::PlushyGen { which, p, n, l });
+                }
+            }
+        }
+    }
     for n in 1..=5usize {
         for which in 1..=3u8 {
             v.push(Case::GeneGen { which, p: (0, 1), n });
@@ -472,7 +560,7 @@ pub fn run(run: &mut Run) {
     run.states = cs.len() as u64;
     run.traces_validated = run.evaluations;
     run.distinct_nontrivial = nontrivial;
-    run.rule = "lattice rates {0,1/4,1/3,1/2,3/4,1}: WithRate / WithOneOverLength flip-mask law = product law; Umad output-genome law = per-gene law (keep 1-d, insert a(1-d), uniform generator) incl. expected size l(1-d)(1+a) and the empty-parent rate; Bitstring::random / random_with_probability / BoolGenerator product laws; GeneGenerator close probability (explicit and 1/(n+1)) and uniform instruction choice; all grid word sequences, laws compared as exact rationals. (UniformXo's exact 1/2 law on short genomes is decided in C10.) Long genomes (63..129, thorough up to 257): flips, bit generators and UniformXo under every stream with at most 1 (2) non-default words over the grid plus the extreme words: every gene must be seen with both outcomes and every pair of genes with different outcomes (alphabet with alternating bit-block words, so that implementations serving several genes from one word are driven through every pair as well). non-trivial = scenarios whose law has more than one outcome".into();
+    run.rule = "lattice rates {0,1/4,1/3,1/2,3/4,1}: WithRate / WithOneOverLength flip-mask law = product law; Umad output-genome law = per-gene law (keep 1-d, insert a(1-d), uniform generator) incl. expected size l(1-d)(1+a) and the empty-parent rate; Bitstring::random / random_with_probability / BoolGenerator product laws; GeneGenerator close probability (explicit and 1/(n+1)) and uniform instruction choice, for single genes and for whole random genomes of 0..2 (3) genes built through the collection generator (Plushy and Vec<PushGene>): product law over the positions; all grid word sequences, laws compared as exact rationals. (UniformXo's exact 1/2 law on short genomes is decided in C10.) Long genomes (63..129, thorough up to 257): flips, bit generators and UniformXo under every stream with at most 1 (2) non-default words over the grid plus the extreme words: every gene must be seen with both outcomes and every pair of genes with different outcomes (alphabet with alternating bit-block words, so that implementations serving several genes from one word are driven through every pair as well). non-trivial = scenarios whose law has more than one outcome".into();
     run.bound("umad_parent_lengths", json!("0, 1, 2 (m=4 lattice); thirds on length 1"));
     run.bound("flip_lengths", json!(if run.quick() { "0..2 (1/l: 1..3)" } else { "0..3 (1/l: 1..4)" }));
     run.bound("instruction_set_sizes", json!("1..5"));
